@@ -261,26 +261,29 @@ def check_assumptions_output(out, n_expected, allow_extra=()):
 
 
 # ------------------------------------------------------------------ harness
-def harness_build(release=False, timeout=1500):
+def harness_build(bins=("scan",), release=False, timeout=1500):
     with Lock("cargo"):
         lock_src = os.path.join(REPO, "Cargo.lock")
         lock_dst = os.path.join(HARNESS, "Cargo.lock")
         if not os.path.exists(lock_dst):
             shutil.copy(lock_src, lock_dst)
         cmd = ["cargo", "build", "--offline", "--quiet"] + (["--release"] if release else [])
+        for b in bins:
+            cmd += ["--bin", b]
         env = {"CARGO_NET_OFFLINE": "true", "RUSTFLAGS": "--cfg boreal_verif"}
         rc, out = sh(cmd, cwd=HARNESS, timeout=timeout, env=env)
         if rc != 0:
             # a stale lock file can be the cause: retry once from the repo's lock
             shutil.copy(lock_src, lock_dst)
             rc, out = sh(cmd, cwd=HARNESS, timeout=timeout, env=env)
-        binp = os.path.join(HARNESS, "target", "release" if release else "debug", "bvh")
-        return rc == 0, out, binp
+        bind = os.path.join(HARNESS, "target", "release" if release else "debug")
+        return rc == 0, out, bind
 
 
-def harness_run(binp, sub, cases, timeout=900, shards=NPROC, extra_args=()):
-    """Send cases (JSON objects) to `bvh <sub>`, one per line; returns list of outputs (parsed JSON or
-    {"crash": ...} when the harness process died on that shard)."""
+def harness_run(bind, sub, cases, timeout=900, shards=NPROC, extra_args=()):
+    """Send cases (JSON objects) to the harness binary `sub`, one per line; returns list of outputs (parsed
+    JSON or {"crash": ...} when the harness process died on that case)."""
+    binp = os.path.join(bind, sub)
     if not cases:
         return []
     shards = max(1, min(shards, len(cases)))
@@ -288,7 +291,7 @@ def harness_run(binp, sub, cases, timeout=900, shards=NPROC, extra_args=()):
 
     def run(chunk):
         inp = "\n".join(json.dumps(c) for c in chunk) + "\n"
-        rc, out = sh([binp, sub] + list(extra_args), input=inp.encode(), timeout=timeout)
+        rc, out = sh([binp] + list(extra_args), input=inp.encode(), timeout=timeout)
         res = []
         for line in out.splitlines():
             if line.startswith("{"):
@@ -300,7 +303,7 @@ def harness_run(binp, sub, cases, timeout=900, shards=NPROC, extra_args=()):
             # process died: rerun one by one to attribute
             res = []
             for c in chunk:
-                rc1, out1 = sh([binp, sub] + list(extra_args), input=(json.dumps(c) + "\n").encode(), timeout=120)
+                rc1, out1 = sh([binp] + list(extra_args), input=(json.dumps(c) + "\n").encode(), timeout=120)
                 got = None
                 for line in out1.splitlines():
                     if line.startswith("{"):
